@@ -1,8 +1,178 @@
-(** C20 — property theorems (placeholder while the pipeline is brought up). *)
-From Coq Require Import List ZArith NArith String Bool.
-From SV Require Import Common.Tok C20.Gen C20.Model C20.Proofs.
+(** C20 — a configuration file means exactly what it declares, however large.
+
+    Objects: [decl] (what the TOML says) --[load_in d order]--> [config]
+    --[config_requests cf order']--> requests, numbered by a counter of modulus
+    [counter_mod] (regenerated from the source) --[apply_all]--> [state].
+    [order]/[order'] are the two HashMap iteration orders; every theorem holds
+    for all of them.  [keys_ok] is the decidable condition the loader does NOT
+    check (distinct route keys / frontends / backends, valid health checks). *)
+From Coq Require Import List ZArith NArith String Bool Lia Permutation.
+From SV Require Import Common.Tok C20.Gen C20.Model C20.Proofs C20.LoadProofs.
 Import ListNotations.
 Open Scope Z_scope.
 
-Theorem numbering_total : forall M rs, List.length (number M rs) = List.length rs.
-Proof. intros; apply number_from_length. Qed.
+(** ** 1. the generated commands are accepted in full by a fresh instance and the
+       resulting state is exactly the configuration, for any number of entries *)
+
+Theorem load_total_and_exact : forall cf order,
+  Permutation order (cf_clusters cf) -> keys_ok cf (cf_clusters cf) = true ->
+  apply_all (config_requests cf order) empty_state
+  = (final_state cf order, repeat DOk (List.length (config_requests cf order))).
+Proof.
+  intros cf order P H. apply apply_fresh. eapply KeysOk_perm; [apply Permutation_sym; exact P|]. now apply keys_ok_KeysOk.
+Qed.
+
+(** what [final_state] is, relative to the configuration: the same objects, each once *)
+Theorem loaded_state_exact : forall cf order,
+  Permutation order (cf_clusters cf) -> keys_ok cf (cf_clusters cf) = true ->
+  let s := final_state cf order in
+  map lkey (s_listeners s) = map lkey (all_listeners cf)
+  /\ Permutation (s_clusters s) (map cc_clu (cf_clusters cf))
+  /\ Permutation (s_fronts s) (map fst (flat_map cc_hfronts (cf_clusters cf)))
+  /\ Permutation (s_tfronts s) (flat_map cc_tfronts (cf_clusters cf))
+  /\ Permutation (s_backends s) (flat_map cc_backs (cf_clusters cf))
+  /\ NoDup (map lkey (s_listeners s)) /\ NoDup (map ckey (s_clusters s)) /\ NoDup (map fkey (s_fronts s))
+  /\ NoDup (map tkey (s_tfronts s)) /\ NoDup (map bkey (s_backends s)) /\ NoDup (map certkey (s_certs s))
+  /\ (forall f cert, In (f, cert) (flat_map cc_hfronts (cf_clusters cf)) -> f_https f = true ->
+        In (certkey (f_addr f, cert)) (map certkey (s_certs s))).
+Proof.
+  intros cf order P H. apply keys_ok_KeysOk in H.
+  assert (Ho : KeysOk cf order) by (eapply KeysOk_perm; [apply Permutation_sym; exact P|exact H]).
+  destruct Ho as (Hl & Hc & Hf & Ht & Hb & Hv).
+  cbn [final_state s_listeners s_clusters s_fronts s_tfronts s_backends s_certs].
+  repeat split; try assumption.
+  - apply final_listener_keys.
+  - now apply Permutation_map.
+  - apply Permutation_map. now apply Permutation_flat_map.
+  - now apply Permutation_flat_map.
+  - now apply Permutation_flat_map.
+  - rewrite final_listener_keys. exact Hl.
+  - apply certs_fold_nodup. constructor.
+  - intros f cert Hin Hh.
+    apply (certs_fold_has (flat_map cc_hfronts order) [] (f, cert)); [|exact Hh].
+    eapply Permutation_in; [|exact Hin]. apply Permutation_flat_map. now apply Permutation_sym.
+Qed.
+
+(** the configuration itself is the declaration: one cluster per declared cluster, in the
+    iteration order, with all its frontends and backends (nothing dropped or duplicated by the loader) *)
+Theorem loaded_config_exact : forall d order cf,
+  load_in d order = Ok cf ->
+  Forall2 cluster_matches order (cf_clusters cf)
+  /\ cf_activate cf = negb (d_activate d =? 0) /\ cf_metrics cf = (d_metrics d =? 1).
+Proof. exact load_in_exact. Qed.
+
+(** ** 2. loading the same file again over the state it produced changes nothing *)
+
+Theorem reload_idempotent : forall cf order order2,
+  Permutation order (cf_clusters cf) -> Permutation order2 (cf_clusters cf) -> keys_ok cf (cf_clusters cf) = true ->
+  fst (apply_all (config_requests cf order2) (final_state cf order)) = final_state cf order.
+Proof.
+  intros cf order order2 P P2 H. apply reload_absorbed.
+  - eapply KeysOk_perm; [apply Permutation_sym; exact P|]. now apply keys_ok_KeysOk.
+  - eapply Permutation_trans; [exact P2|]. now apply Permutation_sym.
+Qed.
+
+(** ** 3. message ids *)
+
+(** over any counter modulus [M]: distinct up to [M] messages, and NOT distinct beyond *)
+Theorem ids_unique_upto : forall M rs, 0 < M -> Z.of_nat (List.length rs) <= M -> NoDup (map fst (number M rs)).
+Proof. exact ids_unique_upto_lemma. Qed.
+
+Theorem ids_collide_beyond : forall M rs, 0 < M -> M < Z.of_nat (List.length rs) -> ~ NoDup (map fst (number M rs)).
+Proof. exact ids_collide_beyond_lemma. Qed.
+
+(** the counter of the CURRENT source ([Gen.counter_bits], regenerated on every run) is at least as wide
+    as any [Vec] length ([isize::MAX]): ids are pairwise distinct and the checked build cannot overflow.
+    With the original [u8] counter the first lemma below does not compute to [true] and this theorem is
+    replaced by [ids_unique_refuted_u8]. *)
+Definition vec_max : Z := 2 ^ 63 - 1.
+
+Lemma counter_is_wide : (vec_max <? counter_mod) = true.
+Proof. vm_compute. reflexivity. Qed.
+
+Theorem ids_unique : forall cf order,
+  Z.of_nat (List.length (config_requests cf order)) <= vec_max ->
+  NoDup (map fst (number counter_mod (config_requests cf order)))
+  /\ checked_panics counter_mod cf order = false.
+Proof.
+  intros cf order H. pose proof counter_is_wide as W. apply Z.ltb_lt in W.
+  assert (V : vec_max = 9223372036854775807) by reflexivity. rewrite V in *. split.
+  - apply ids_unique_upto_lemma; lia.
+  - unfold checked_panics, increments. apply Z.leb_gt. destruct (cf_metrics cf); lia.
+Qed.
+
+(** the defect of the original tree ([let mut count = 0u8]): 130 clusters x 2 frontends *)
+Fixpoint wit_clusters (n : nat) : list cdecl :=
+  match n with
+  | O => []
+  | S k =>
+    let i := N.of_nat k in
+    mk_cdecl (dec_bytes i) 1 (-1) (-1) (-1) (-1) (-1) (-1) false None [] []
+             [mk_fdecl (dec_bytes (1000 + 2 * i)) None None (-1) None (-1) false (-1) (-1) (-1) [TN 0] [];
+              mk_fdecl (dec_bytes (1001 + 2 * i)) None None (-1) None (-1) false (-1) (-1) (-1) [TN 0] []] []
+    :: wit_clusters k
+  end.
+Definition wit_decl : decl := mk_decl (-1) (-1) (-1) (-1) (-1) (-1) (-1) false false [] (wit_clusters 130).
+
+Theorem ids_unique_refuted_u8 :
+  exists cf, load wit_decl = Ok cf /\ keys_ok cf (cf_clusters cf) = true
+             /\ ~ NoDup (map fst (number (2 ^ 8) (config_requests cf (cf_clusters cf))))
+             /\ checked_panics (2 ^ 8) cf (cf_clusters cf) = true.
+Proof.
+  destruct (load wit_decl) as [cf|e] eqn:E; [|vm_compute in E; discriminate].
+  exists cf. split; [reflexivity|].
+  assert (Hk : keys_ok cf (cf_clusters cf) = true) by (vm_compute in E; inversion E; subst cf; vm_compute; reflexivity).
+  assert (Hn : List.length (config_requests cf (cf_clusters cf)) = 910%nat)
+    by (vm_compute in E; inversion E; subst cf; vm_compute; reflexivity).
+  repeat split.
+  - exact Hk.
+  - apply ids_collide_beyond_lemma; [reflexivity|]. rewrite Hn. reflexivity.
+  - unfold checked_panics, increments. rewrite Hn. now destruct (cf_metrics cf).
+Qed.
+
+(** ** 4. files violating a documented constraint are rejected at load time:
+       an accepted declaration satisfies every modelled constraint *)
+
+Theorem violations_rejected : forall d order cf,
+  load_in d order = Ok cf -> constraints d cf.
+Proof. exact load_in_constraints. Qed.
+
+(** ** non-vacuity *)
+
+Definition sample_decl : decl :=
+  mk_decl (-1) 1 (-1) 45 (-1) (-1) (-1) false false
+    [ mk_ldecl [49;50;55;46;48;46;48;46;49;58;56;48]%N 0 (-1) None (-1) 29 (-1) (-1) None (-1) (-1) (-1) (-1) (-1) (-1) None (blank_pay 8);
+      mk_ldecl [49;50;55;46;48;46;48;46;49;58;53;51]%N 3 (-1) None (-1) (-1) (-1) (-1) None (-1) (-1) (-1) 65000 (-1) (-1) None (blank_pay 8) ]
+    [ mk_cdecl [97]%N 0 1 (-1) (-1) (-1) (-1) (-1) true (Some [47]%N) [-1; -1; -1; -1; -1] []
+        [ mk_fdecl [49;50;55;46;48;46;48;46;49;58;56;48]%N (Some [104]%N) (Some [47;97]%N) 2 None (-1) false (-1) (-1) (-1) [TN 0] [];
+          mk_fdecl [49;50;55;46;48;46;48;46;49;58;52;52;51]%N (Some [104]%N) None (-1) None 3 true (-1) 1 (-1) [TN 0] [] ]
+        [ mk_bdecl [49;58;49]%N (-1) None None (-1); mk_bdecl [49;58;50]%N 50 (Some [120]%N) None 1 ];
+      mk_cdecl [98]%N 1 (-1) (-1) 1 (-1) (-1) (-1) false None [] []
+        [ mk_fdecl [49;50;55;46;48;46;48;46;49;58;53;51]%N None None (-1) None (-1) false (-1) (-1) (-1) [TN 0] [];
+          mk_fdecl [49;50;55;46;48;46;48;46;49;58;57]%N None None (-1) None (-1) false (-1) (-1) (-1) [TN 0] [] ]
+        [ mk_bdecl [49;58;51]%N (-1) None None (-1) ] ].
+
+Example load_total_and_exact_nonvacuous :
+  exists cf s, load sample_decl = Ok cf /\ keys_ok cf (cf_clusters cf) = true
+    /\ apply_all (config_requests cf (rev (cf_clusters cf))) empty_state = (s, repeat DOk 19)
+    /\ List.length (s_listeners s) = 4%nat /\ List.length (s_fronts s) = 2%nat /\ List.length (s_tfronts s) = 2%nat
+    /\ List.length (s_backends s) = 3%nat /\ List.length (s_certs s) = 1%nat
+    /\ fst (apply_all (config_requests cf (cf_clusters cf)) s) = s.
+Proof. vm_compute. do 2 eexists. repeat split. Qed.
+
+Example violations_rejected_nonvacuous :
+  (exists cf, load sample_decl = Ok cf)
+  /\ load (mk_decl (-1) 1 16392 45 (-1) (-1) (-1) false false (d_listeners sample_decl) (d_clusters sample_decl)) = Err EBufferSize
+  /\ load (mk_decl (-1) 1 (-1) 45 (-1) (-1) (-1) false false (d_listeners sample_decl ++ d_listeners sample_decl) (d_clusters sample_decl)) = Err EAddrInUse
+  /\ load (mk_decl (-1) 1 (-1) 45 (-1) (-1) (-1) false false (d_listeners sample_decl) (rev (d_clusters sample_decl) ++ d_clusters sample_decl)) = Err EDeserialize
+  /\ load (mk_decl (-1) 1 (-1) 45 (-1) (-1) (-1) false false
+             (mk_ldecl [49;50;55;46;48;46;48;46;49;58;57]%N 0 (-1) None (-1) (-1) (-1) (-1) None (-1) (-1) (-1) (-1) (-1) (-1) None [] :: d_listeners sample_decl)
+             (d_clusters sample_decl)) = Err EWrongFrontendProtocol
+  /\ load (mk_decl (-1) 1 (-1) 45 (-1) (-1) (-1) false false
+             (mk_ldecl [57]%N 7 (-1) None (-1) (-1) (-1) (-1) None (-1) (-1) (-1) (-1) (-1) (-1) None [] :: d_listeners sample_decl)
+             (d_clusters sample_decl)) = Err EDeserialize.
+Proof. vm_compute. repeat split. eexists; reflexivity. Qed.
+
+Example ids_unique_nonvacuous :
+  exists cf, load sample_decl = Ok cf /\ map fst (number counter_mod (config_requests cf (cf_clusters cf))) = map Z.of_nat (seq 0 19).
+Proof. vm_compute. eexists; split; reflexivity. Qed.
